@@ -77,13 +77,20 @@ class Gen:
         if self.r.random() < 0.85:
             return None
         d = {}
+        # (reserved keys arrive through properties= as well as through name=: values from the pool the names come from,
+        # so that they collide with siblings as often as names do)
+        pool = NAMES_COLLIDE if self.cfg.get("names") == "collide" else ["v", "a", "A", "ab"]
         for _ in range(self.r.randint(1, 2)):
-            d[self.r.choice(USER_KEYS + ["EDIF.identifier"])] = self.r.choice(["v", "a", "A", "ab"])
+            d[self.r.choice(USER_KEYS + ["EDIF.identifier", "EDIF.identifier", ".NAME"])] = self.r.choice(pool)
         return d
 
     def position(self, n):
         if self.r.random() < 0.6:
             return None
+        if self.hostile() and self.r.random() < 0.5:
+            # not an index at all (the result of a true division, a string, an int beyond any list), or out of range
+            self.w.count("hostile.position")
+            return self.r.choice([1.5, float(n), "0", 10 ** 30, -1, n + 7, -(n + 7)])
         return self.r.randint(0, n)
 
     def hd(self, obj):
